@@ -24,7 +24,8 @@ type Obligation struct {
 	Solver string
 	Time   float64
 	Model  string
-	Cover  bool // cover obligation: expected SAT (reachability)
+	Paths  []string // optional: path conditions covering every way to reach the site (tried when the merged query fails)
+	Cover  bool     // cover obligation: expected SAT (reachability)
 	Func   string
 	Hints  []string
 }
@@ -620,10 +621,11 @@ type loopInfo struct {
 	ordinal int
 	spec    *LoopSpec
 	// generation-time data
-	entrySt  *hstate
-	headSt   *hstate
-	variant0 string
-	specEnvF func(st *hstate, phiVals map[*ssa.Phi]string) *specEnv
+	entrySt   *hstate
+	headSt    *hstate
+	variant0  string
+	entryVals map[*ssa.Phi]string
+	specEnvF  func(st *hstate, phiVals map[*ssa.Phi]string) *specEnv
 }
 
 type deferred struct {
@@ -658,6 +660,7 @@ type frame struct {
 	top      bool
 	callStk  []*ssa.Function
 	iters    map[*ssa.Range]string
+	pathMemo map[*ssa.BasicBlock][]string
 }
 
 type retInfo struct {
@@ -715,8 +718,73 @@ func (f *frame) obligeAt(R, kind, key string, props []string, cond string, pos t
 		props = f.defaultProps()
 	}
 	o := &Obligation{Name: fnName + "/" + full, Kind: kind, Key: key, Props: props, Guard: R, Cond: cond, Pos: f.posStr(pos), Src: f.srcLine(pos), Func: fnName}
+	if f.cur != nil && kind != "cover" && cond != "true" && f.depth == 0 {
+		if ps := f.pathConds(f.cur); len(ps) > 1 {
+			o.Paths = ps
+		}
+	}
 	vc.obls = append(vc.obls, o)
 	return o
+}
+
+// pathConds enumerates, for block b, the conjunctions of edge conditions of every acyclic path from the entry of the
+// innermost enclosing loop (or of the function) to b. Their disjunction is implied by reaching b. Nil when there are too many.
+func (f *frame) pathConds(b *ssa.BasicBlock) []string {
+	if f.pathMemo == nil {
+		f.pathMemo = map[*ssa.BasicBlock][]string{}
+	}
+	if ps, ok := f.pathMemo[b]; ok {
+		return ps
+	}
+	// innermost loop containing b
+	var entry *ssa.BasicBlock
+	best := -1
+	for h, li := range f.loops {
+		if li.blocks[b] && (best < 0 || len(li.blocks) < best) {
+			best = len(li.blocks)
+			entry = h
+		}
+	}
+	var rec func(x *ssa.BasicBlock) []string
+	memo := map[*ssa.BasicBlock][]string{}
+	tooMany := false
+	rec = func(x *ssa.BasicBlock) []string {
+		if x == entry || x.Index == 0 {
+			return []string{"true"}
+		}
+		if ps, ok := memo[x]; ok {
+			return ps
+		}
+		var out []string
+		for i, p := range x.Preds {
+			if p.Dominates(x) && f.loops[x] != nil && f.loops[x].blocks[p] {
+				continue // back edge into x
+			}
+			if l := f.loops[x]; l != nil && l.blocks[p] {
+				continue
+			}
+			if _, done := f.blkR[p]; !done {
+				continue
+			}
+			// inner loops are summarised by their header: treat the header's incoming R as a single step
+			c := f.predEdge(x, i)
+			for _, pc := range rec(p) {
+				out = append(out, and(pc, c))
+				if len(out) > 32 {
+					tooMany = true
+					return out
+				}
+			}
+		}
+		memo[x] = out
+		return out
+	}
+	ps := rec(b)
+	if tooMany {
+		ps = nil
+	}
+	f.pathMemo[b] = ps
+	return ps
 }
 
 func (f *frame) defaultProps() []string {
